@@ -282,17 +282,35 @@ func c19RecordAfterSend(r *R) {
 		if fn == nil {
 			continue
 		}
-		sm := r.one("C19.5", fn, "(network.DataTransferNetwork).SendMessage")
-		if sm == nil {
-			continue
+		// per path (a send helper introduced later is walked through): the entry is
+		// recorded after a send of the message to the counterparty that was found to
+		// have succeeded, on the channel it was sent for, exactly once
+		paths := r.pathsOf("C19.5", fn)
+		isSend := r.p.Is("(network.DataTransferNetwork).SendMessage")
+		sendOK := func(pt *core.Path, before ssa.Instruction) bool {
+			for _, ev := range pt.Evs {
+				if isSend(ev) && pt.Precedes(ev.Instr, before) && pt.HasBefore(before, "+"+pt.Desc(ev.Instr.(ssa.Value))+"==nil") {
+					return true
+				}
+			}
+			return false
 		}
-		for _, s := range r.guardedCalls("C19.5", fn, false, x.rec, 1, "+"+r.v(sm)+"==nil") {
-			r.argIs("C19.5", s, 0, "channelID", "channel the entry is recorded on")
-		}
+		r.guardedOnPaths("C19.5", fn, paths, x.rec, 1, func(pt *core.Path, ev core.Ev) []string {
+			if !sendOK(pt, ev.Instr) {
+				return []string{"+<the message was sent successfully>"}
+			}
+			if pt.ArgDesc(ev, 0) != "channelID" {
+				return []string{"+<recorded on the channel the message was sent for>"}
+			}
+			return nil
+		})
 		// exactly once on the success path
 		n := 0
-		for _, pt := range r.pathsOf("C19.5", fn) {
-			if pt.End == "return" && pt.Has("+"+pt.Desc(sm.Value())+"==nil") {
+		for _, pt := range paths {
+			if pt.End != "return" || pt.Ret == nil {
+				continue
+			}
+			if sendOK(pt, pt.Ret) {
 				n++
 				r.c.Check(pt.Count(r.p.Is(x.rec)) == 1, "C19.5", fmt.Sprintf("%s/once#%d", x.fn, n), r.p.Pos(fn.Pos()), "recorded exactly once after a successful send", "a sent voucher/result is not recorded exactly once: "+pt.Describe())
 			}
